@@ -4,6 +4,15 @@ import PsutilModel.Model.C13Pct
 import PsutilModel.Generated.C13
 namespace Psutil.C13
 
+/-- the class-body guard expressions the translator prints (`ast.unparse`) -/
+def guardOf (s : String) : Guard :=
+  if s == "HAS_PROC_SMAPS_ROLLUP or HAS_PROC_SMAPS" || s == "HAS_PROC_SMAPS or HAS_PROC_SMAPS_ROLLUP" then .rollupOrSmaps
+  else if s == "HAS_PROC_SMAPS_ROLLUP and HAS_PROC_SMAPS" || s == "HAS_PROC_SMAPS and HAS_PROC_SMAPS_ROLLUP" then .rollupAndSmaps
+  else if s == "HAS_PROC_SMAPS_ROLLUP" then .rollup
+  else if s == "HAS_PROC_SMAPS" then .smaps
+  else if s == "True" || s == "" then .always
+  else .other
+
 /-- configuration of the model as extracted from the current source -/
 def cfg : Cfg :=
   { statmOrder := Gen.C13.statmOrder
@@ -27,6 +36,14 @@ def cfg : Cfg :=
     pssPat := Re.compileOne Gen.C13.pssReB
     swapPat := Re.compileOne Gen.C13.swapReB
     pctByMembership := Gen.C13.pctValidation == "memtype not in list(pfullmem._fields) -> ValueError"
+    statmFixedScale := if Gen.C13.statmScale == "PAGESIZE" then none else some (Gen.C13.statmScale.toNat?.getD 0)
+    pagesizeFromSystem := Gen.C13.pagesizeDef == "cext_posix.getpagesize()"
+    fallbackEnoent := Gen.C13.fallbackExcs.contains "FileNotFoundError"
+    fallbackEsrch := Gen.C13.fallbackExcs.contains "ProcessLookupError"
+    basicFirst := Gen.C13.fullInfoBasicFirst
+    fullGuard := guardOf Gen.C13.fullInfoGuard
+    fullElseIsInfo := Gen.C13.fullInfoElse == ["memory_full_info = memory_info"]
+    mapsGuard := guardOf Gen.C13.mapsGuard
     rollupWrapped := ((Gen.C13.methodDecorators.lookup "_parse_smaps_rollup").getD []).contains "wrap_exceptions" }
 
 /-- where `memory_percent`'s total comes from, as extracted from the current source -/
